@@ -3,11 +3,13 @@ from vlib.common import Result
 from props import shared
 
 PID = "C03"
-LEAN_MODULES = ['BemppVerif.Props.C03', 'BemppVerif.Gen.AsmMatch']
+LEAN_MODULES = ['BemppVerif.Props.C03', 'BemppVerif.Props.C03Rot', 'BemppVerif.Gen.AsmMatch']
 N = "BemppVerif.C03."
 THEOREMS = []
-PARTIAL = {N + "rotation_preserves_invariants": "kernel-level and spec-level statements only: equivariance of the geometric factors "
-           "(cross products for normals / surface curls / Piola maps) under rotations, the dof-permutation statement for "
+PARTIAL = {N + "rotation_preserves_invariants": "kernel-level and spec-level statements only: the equivariance of the geometric factors "
+           "(cross products for normals / surface curls / n x rwg, Jacobian columns) under rotations and reflections IS proved "
+           "(Props/C03Rot.lean: cross_rotation_equivariant, cross_reflection_flips, jacobian_columns_corotate) but as statements "
+           "about np.cross / vertex differences, composed with the traced assemblers by hand, not mechanically; the dof-permutation statement for "
            "vertex renumbering, and everything 'up to singular-quadrature error' (local vertex rotation, orientation flips) are "
            "oracle-only"}
 TRUSTED = [
@@ -26,7 +28,8 @@ TECHNIQUE = 'Lean 4 proof (ring / linear_combination on traced kernels) + numeri
 def generate(ctx):
     info = dict(kernels=shared.gen_kernels()[0], asm=shared.gen_asm()[0])
     THEOREMS[:] = ([N + t for t in ("kernels_translation_invariant", "kernels_depend_on_r_dny_dnx", "rotation_preserves_invariants",
-                                    "scaling_of_invariants", "laplace_kernel_homogeneity", "galerkin_element_order_irrelevant")]
+                                    "scaling_of_invariants", "laplace_kernel_homogeneity", "galerkin_element_order_irrelevant",
+                                    "cross_rotation_equivariant", "cross_reflection_flips", "jacobian_columns_corotate")]
                    + sum(shared.KERNEL_FACTS.values(), [])
                    # the traced assemblers = the model / the decompositions, entry by entry: these statements carry how the
                    # normals enter (normal x normal multiplier on BOTH sides, which is what makes a swapped-normals flag
